@@ -81,6 +81,22 @@ def jsonRT : (ty : Ty) → Val ty → Prop
   | .arr t _, v => allP (jsonRT t) v
   | .json, v => ∃ text, JsonCodec.write v = some text ∧ JsonCodec.read text = some v
 
+/-- types with a value `operator<` in C++ (usable as keys of the ordered containers): everything except smart
+pointers (they compare addresses) and `json::value` (no `operator<`) -/
+def keyable : Ty → Bool
+  | .pod _ => true
+  | .str => true
+  | .vecPod _ => true
+  | .seq t => keyable t
+  | .set t => keyable t
+  | .map k w => keyable k && keyable w
+  | .pair a b => keyable a && keyable b
+  | .ptr _ => false
+  | .mset t => keyable t
+  | .mmap k w => keyable k && keyable w
+  | .arr t _ => keyable t
+  | .json => false
+
 /-- types whose archives are canonical (no set/map re-ordering, no pointer flag): a successful load
 must have consumed exactly `save` of the value it returned -/
 def flat : Ty → Bool
